@@ -86,7 +86,12 @@ class Ctx(object):
     def finding(self, rs, key, msg, loc):
         rs.instances += 1
         rs.violations += 1
-        f = Finding(self.prop, rs.rule, "%s|%s" % (rs.rule, key), msg, loc)
+        full = "%s|%s" % (rs.rule, key)
+        for g in self.findings:
+            if g.key == full:        # same construct reached through another instance: one report
+                g.more = getattr(g, "more", 0) + 1
+                return g
+        f = Finding(self.prop, rs.rule, full, msg, loc)
         self.findings.append(f)
         return f
 
